@@ -160,6 +160,14 @@ extern "C" fn foreign_next(st: &mut FIt, out: &mut core::mem::MaybeUninit<i32>) 
     }
 }
 
+/// C: `struct CSliceBox_T { struct CSliceMut_T instance; void (*drop_fn)(struct CSliceMut_T *); }`
+#[repr(C)]
+struct CSliceBoxPayView {
+    data: *mut Pay,
+    len: usize,
+    drop_fn: usize,
+}
+
 nd::harnesses! {
     /// CBox = {instance, drop function}: releasing through the view drops the value exactly once
     /// and frees the allocation (leak check on), like dropping the CBox.
@@ -355,6 +363,33 @@ nd::harnesses! {
             assert!(func(view.iter as *mut u8, slot.as_mut_ptr()) != 0);
         }
         assert!(live() == 0 && drops() == n as u32 && made() == n as u32);
+    }
+
+    /// Boxed slice = {slice {data, len}, release function taking a pointer to that slice}: a C caller that owns the value
+    /// releases it through the function - every element is destroyed once and the storage is freed (leak check).
+    #[kani::unwind(6)]
+    fn c16_cslicebox_view_released_by_c() {
+        reset();
+        let n = nd::range(0, 2);
+        nd::cover!(n == 2, "two droppable elements");
+        let mut v: Vec<Pay> = Vec::with_capacity(2);
+        let mut i = 0;
+        while i < n {
+            v.push(Pay::new(i as u32 + 7));
+            i += 1;
+        }
+        let sb: cglue::boxed::CSliceBox<Pay> = cglue::boxed::CSliceBox::from(v.into_boxed_slice());
+        assert!(core::mem::size_of_val(&sb) == core::mem::size_of::<CSliceBoxPayView>());
+        let mut view: CSliceBoxPayView = unsafe { transmute_copy(&sb) };
+        core::mem::forget(sb);
+        assert!(view.len == n && view.drop_fn != 0);
+        if n > 0 {
+            assert!(unsafe { (*view.data).val } == 7);
+        }
+        assert!(live() == n as i32 && drops() == 0);
+        let f: unsafe extern "C" fn(&mut CSliceMut<'static, Pay>) = unsafe { core::mem::transmute(view.drop_fn) };
+        unsafe { f(&mut *(&mut view as *mut CSliceBoxPayView as *mut CSliceMut<'static, Pay>)) };
+        assert!(live() == 0 && drops() == n as u32, "the release function destroys every element exactly once");
     }
 
     /// Values MADE by C code from the published declarations are valid on the Rust side: a box with a null release
